@@ -8,7 +8,10 @@ use penguin_mux::{Datagram, MuxStream};
 use std::io;
 use std::net::{Ipv4Addr, Ipv6Addr, SocketAddr};
 use thiserror::Error;
+#[cfg(not(penguin_rs_verif))]
 use tokio::net::{TcpSocket, ToSocketAddrs, UdpSocket, lookup_host};
+#[cfg(penguin_rs_verif)]
+use penguin_simnet::{TcpSocket, ToSocketAddrs, UdpSocket, lookup_host};
 use tokio::sync::mpsc;
 use tracing::{debug, trace};
 
